@@ -44,6 +44,20 @@ def load_configs(chk):
     return confs
 
 
+def check_monitor(chk, tier):
+    """The Obs monitor against its own specification (exhaustive, small constants) + a reachability probe."""
+    cfg = "ObsMC" if tier == "quick" else "ObsMC5"
+    r = vlib.tlc("ObsMC", cfg, workers=4 if tier == "quick" else vlib.NCPU, timeout=900)
+    chk.add_tlc(cfg, r)
+    if r.violated:
+        chk.violation("the Obs monitor violates %s" % r.violated, r.trace_text, key={"model": "ObsMC", "inv": r.violated})
+    p = vlib.tlc("ObsMC", "ObsMCProbe", workers=2, timeout=300)
+    if p.violated != "NeverRejects":
+        raise vlib.MachineryError("ObsMC probe: a rejection is not reachable in the monitor model (%s)" % (p.error or p.violated))
+    chk.tlc_runs.append({"name": "ObsMCProbe", "generated": p.states, "distinct": p.distinct, "wall_s": round(p.wall, 2),
+                         "expected_violation": "NeverRejects"})
+
+
 def parse_input(s):
     parts = s.split("|")
     if len(parts) == 2 and parts[1] == "exit":
@@ -55,6 +69,7 @@ def run(chk, tier):
     b = vlib.vbuild()
     wd = vlib.scratch("c08")
     confs = load_configs(chk)
+    check_monitor(chk, tier)
     groups = detobs.make_inputs(chk.seed, tier)
     pairs, used = detobs.plan(confs, groups, tier, chk.seed)
     runner = detobs.Runner(b, wd)
@@ -130,6 +145,13 @@ def run(chk, tier):
     chk.extra["rejected_observations"] = len(disagreements)
     chk.extra["rejected_by_class"] = sorted(classes.values(), key=lambda e: -e["count"])
     chk.extra["formats_recording_the_directory"] = sorted(runner.paths_recorded)
+    chk.extra["same_directory_for_equal_cwd"] = bool(runner.ns)
+    if not runner.ns:
+        chk.assumptions.append("private mount namespaces are not available here: every run had an absolute directory of its own, "
+                               "so an output that records the directory is reported on whatever axis the two runs differ in")
+    chk.extra["invocations_without_exit"] = runner.hang_list[:10]
+    chk.extra["invocations_skipped_after_hangs"] = runner.skipped_after_hangs
+    chk.extra["batch_files_not_started_after_a_failed_file"] = runner.unreached
     chk.extra["wall_compile_s"] = round(t_run, 1)
     chk.extra["wall_tlc_trace_s"] = round(t_tlc, 1)
     chk.extra["slowest_runs_s"] = [list(k) + [round(t, 1)] for k, t in sorted(runner.durations.items(), key=lambda kv: -kv[1])[:6]]
